@@ -142,6 +142,19 @@ func checkC15(c c15Case) (o vstat.Outcome) {
 		if back.GetHashType() != h.GetHashType() || !bytes.Equal(back.GetHash(), h.GetHash()) {
 			return vstat.Viol("b58-roundtrip", "ParseFromB58(MarshalString(h)) = (%d,%x) want (%d,%x)", back.GetHashType(), back.GetHash(), h.GetHashType(), h.GetHash())
 		}
+		// decoding into an object that held another hash before gives what decoding into a fresh one gives
+		if s != "" && h.GetHashType() != 0 && len(h.GetHash()) != 0 {
+			for _, prevLen := range []int{64, 32, 20, 5} {
+				reused := &hash.Hash{HashType: hash.HashType(1 + prevLen%3), Hash: gen.DetBytes("c15-prev", prevLen)}
+				if err := reused.ParseFromB58(s); err != nil || reused.GetHashType() != h.GetHashType() || !bytes.Equal(reused.GetHash(), h.GetHash()) {
+					return vstat.Viol("decode-into-used-object", "ParseFromB58 into an object that held a %d-byte digest gives (%d,%x), want (%d,%x) (err=%v)", prevLen, reused.GetHashType(), reused.GetHash(), h.GetHashType(), h.GetHash(), err)
+				}
+				reused = &hash.Hash{HashType: hash.HashType(1 + prevLen%3), Hash: gen.DetBytes("c15-prev", prevLen)}
+				if err := reused.UnmarshalVT(h.MarshalDigest()); err != nil || !reused.CompareHash(h) {
+					return vstat.Viol("decode-into-used-object", "UnmarshalVT into an object that held a %d-byte digest gives (%d,%x), want (%d,%x) (err=%v)", prevLen, reused.GetHashType(), reused.GetHash(), h.GetHashType(), h.GetHash(), err)
+				}
+			}
+		}
 		bin := h.MarshalDigest()
 		back2 := &hash.Hash{}
 		if err := back2.UnmarshalVT(bin); err != nil || !back2.CompareHash(h) || !h.CompareHash(back2) {
